@@ -106,10 +106,23 @@ P("C11",
   health={"repo=scripted": 20, "repo=oci-layout": 20, "calls>=2": 20, "meta=colliding": 5, "meta=reserved": 5, "ref=digest-mismatch": 5})
 
 P("C12",
-  technique="robustness PBT + fuzzing: structured mutations of valid inputs and the full verifier-configuration cross product run under recover with allocation accounting; eight native fuzz targets in thorough",
+  technique="robustness PBT + fuzzing: structured mutations of valid inputs and the full verifier-configuration cross product run under recover with allocation accounting; hostile on-disk OCI layouts and an in-process hostile HTTP registry behind the real oras client; four native fuzz targets in thorough",
   level_text="Exploration: every public entry point x input kind x verifier configuration is called under recover; a panic, a runaway allocation (explicit threshold) or an inconsistent (outcome, error) pair is a violation.",
   level_note="'Runaway allocation' is an explicit threshold (512 MiB for inputs < 4 MiB), not a proof of boundedness; panics in goroutines the library might spawn would crash the worker (reported as inconclusive).",
-  health={"entry=verifier.Verify": 50, "entry=verifier.VerifyBlob": 50, "entry=notation.Verify": 20, "entry=notation.VerifyBlob": 20, "config-cross": 50, "parsed": 50},
+  health={"entry=verifier.Verify": 50, "entry=verifier.VerifyBlob": 50, "entry=notation.Verify": 20, "entry=notation.VerifyBlob": 20, "entry=SkipVerify": 20,
+          "config-cross": 50, "parsed": 50, "envelope-content": 50, "outcome=ok": 50, "outcome=err": 50, "resigned": 50,
+          "family=1": 1000, "family=2": 1000, "family=4": 100, "family=5": 1000, "family=6": 100,
+          "wrong-kind-verifier": 50, "skip-level:notation.VerifyBlob": 20, "skip-level:notation.Verify": 20, "skip-level:SkipVerify": 20, "construct=error": 10,
+          "docs=oci": 50, "docs=blob": 50, "docs=both": 50, "level=strict": 50, "level=permissive": 50, "level=audit": 50, "level=skip": 50,
+          "blobstmt=named": 50, "blobstmt=global": 50, "pm=nil": 50, "pm=scripted": 50, "sig=valid": 50, "sig=invalid": 50, "sig=plugin": 50,
+          "media=jws": 50, "media=cose": 50, "media=empty": 10, "media=unknown": 10,
+          "odd:ref=empty": 5, "odd:ref=nodigest": 5, "odd:policyName=empty": 5, "odd:policyName=unknown": 5, "odd:meta=empty": 5, "odd:pluginCfg=empty": 5, "odd:max=0": 5,
+          "mutation=random": 20, "mutation=jws:outer": 20, "mutation=jws:protected": 20, "mutation=jws:payload": 20, "mutation=jws:attr": 20, "mutation=jws:der": 10,
+          "mutation=cose:outer": 20, "mutation=cose:protected": 20, "mutation=cose:payload": 10, "mutation=cose:attr": 10, "mutation=cose:der": 10,
+          "mode=layout": 50, "mode=remote": 50, "phase=reopened": 10, "manifest-fetched": 20, "listed>0": 20,
+          "file=oci-policy": 50, "file=blob-policy": 50, "file=config": 50, "file=signingkeys": 50, "file=crl-cache": 50, "file=keypair": 20, "file=truststore": 20,
+          "parsed:oci-policy": 10, "parsed:blob-policy": 10, "parsed:signingkeys": 10, "parsed:config": 10, "parsed:crl-cache": 5, "policy-accepted": 10,
+          "plugin=cli": 10, "plugin=cli-signer": 5, "plugin=cli-verifier": 5, "plugin=inproc": 100, "fuzz-seed": 50},
   fuzz=[{"name": "FuzzC12_Envelope", "seconds": 90}, {"name": "FuzzC12_PolicyJSON", "seconds": 60}, {"name": "FuzzC12_ConfigJSON", "seconds": 60}, {"name": "FuzzC12_CacheEntry", "seconds": 60}])
 
 P("C13",
